@@ -341,13 +341,7 @@ class Interp:
 
     def assign(self, target, val, fr, force=False):
         if isinstance(target, ast.Name):
-            pc = Ctx.pc
-            if force:
-                fr.env[target.id] = val
-            elif target.id in fr.env and is_sym(pc) and not isinstance(fr.env[target.id], Poison):
-                fr.env[target.id] = soft_merge(pc, val, fr.env[target.id])
-            else:
-                fr.env[target.id] = val
+            fr.env[target.id] = val  # merging is done by the enclosing if / for
         elif isinstance(target, (ast.Tuple, ast.List)):
             vals = list(val) if not isinstance(val, (SSet, SList)) else None
             if vals is None or len(vals) != len(target.elts):
